@@ -103,30 +103,29 @@ Print Assumptions C03_margin.
 
 (** ** MeshGraph: hill climbing with shortcuts and cached start vertex *)
 
-(** the loop stops only at a vertex none of whose neighbours improves the projection by
-    more than 10*eps (for a valid start index; see [C03_mesh_local_max_refuted]) *)
+(** (model of mesh.py since /repo 7cb1be3: the projection of the best vertex is carried along
+    and has to increase by more than 10*eps at every move; the earlier test
+    d.(v_j - v_best) > 10*eps terminated over the reals but could cycle forever in binary64
+    for a direction orthogonal to a face up to rounding - finding F-M1.)
+    the loop stops only at a vertex none of whose neighbours improves the projection by
+    more than 10*eps; no hypothesis on the start index: the code reads vertices[start_idx]
+    first (IndexError otherwise) *)
 Theorem C03_mesh_local_max : forall fuel (d : V3R) start vs conn shortcuts i,
-  (start < length vs)%nat ->
   hill_climb fuel d start vs conn shortcuts = ClimbOk i -> local_max d vs conn i.
-Proof. exact hill_climb_local_max_valid. Qed.
+Proof. exact hill_climb_local_max. Qed.
 Print Assumptions C03_mesh_local_max.
 
-(** without the validity hypothesis the statement is FALSE for the faithful model (and
-    the code): empty shortcut list, empty neighbour list, out-of-range start index *)
-Theorem C03_mesh_local_max_refuted :
-  ~ (forall fuel (d : V3R) start vs conn shortcuts i,
-       hill_climb fuel d start vs conn shortcuts = ClimbOk i -> local_max d vs conn i).
-Proof. exact hill_climb_local_max_refuted. Qed.
-Print Assumptions C03_mesh_local_max_refuted.
-
 (** termination and index safety: with a closed adjacency (every vertex has an entry,
-    entries list valid indices) the while loop ends within [length vs] rounds, raises
-    neither KeyError nor IndexError, and a query returns an answer *)
-Theorem C03_mesh_terminates : forall (d : V3R) vs conn start,
+    entries list valid indices) the whole function - shortcut pass and while loop - ends
+    within [length vs] rounds for EVERY direction and start vertex, raises neither KeyError
+    nor IndexError, and returns a valid index.  No hypothesis on gains: the carried
+    projection strictly increases over a finite vertex set. *)
+Theorem C03_mesh_hill_climb_terminates : forall (d : V3R) vs conn shortcuts start,
   conn_closed vs conn -> (start < length vs)%nat ->
-  exists i, climb (S (length vs)) d vs conn start = ClimbOk i /\ (i < length vs)%nat.
-Proof. exact climb_terminates. Qed.
-Print Assumptions C03_mesh_terminates.
+  (forall j, In j shortcuts -> (j < length vs)%nat) ->
+  exists i, hill_climb (S (length vs)) d start vs conn shortcuts = ClimbOk i /\ (i < length vs)%nat.
+Proof. exact hill_climb_terminates. Qed.
+Print Assumptions C03_mesh_hill_climb_terminates.
 
 Theorem C03_mesh_query_total (T : Pose R) vs conn shortcuts first_idx (d : V3R) :
   conn_closed vs conn -> (first_idx < length vs)%nat ->
